@@ -233,6 +233,9 @@ pub fn check_ttl(h: &Hist, want: &[&str]) -> TtlOutcome {
                         last_fault_now = last_fault_now.max(o.ret_now);
                         faults_off_seen = true;
                     }
+                    (Op::StallSelf { ns, .. }, _) => {
+                        last_fault_now = last_fault_now.max(o.ret_now + ns);
+                    }
                     (Op::Get { k, .. }, Res::Got(g)) => {
                         let seen = g.map(|(a, b, t)| (a, b, t));
                         lookup_check(h, &mut out, &m, *k, o, seen.map(|x| x.0), seen.map(|x| x.2), c03, c04, over_cap, &mut expired_seen);
